@@ -3,7 +3,7 @@
     followed by Print Assumptions.  Model: Val/Model.v (tied to val/types.go, val/util.go,
     nodeutil/reflect.go, nodeutil/node_slice.go by the C17 correspondence check). *)
 From Coq Require Import ZArith List Lia.
-From YV Require Import Base.Wrap Val.Model Val.Proofs Val.Lookup.
+From YV Require Import Base.Wrap Val.Model Val.Proofs Val.Lookup Val.History Val.HistoryProofs.
 From Coq Require Import Sorting.Permutation Sorting.Sorted Strings.Byte.
 Import ListNotations.
 Open Scope Z_scope.
@@ -139,3 +139,47 @@ Example C17_lookup_hyps_met :
   reflect_find rows k = Some k /\ linear_lookup rows k = Some k /\
   reflect_find rows [VInt FUInt64 7; VStr []] = None.
 Proof. exact lookup_hyps_met. Qed.
+
+(** History-dependent lookup: ONE live Reflect list node (nodeutil/reflect.go listSlice, with its
+    cached sorted key index) serving any stream of keyed lookups, deletes and upserts answers every
+    request exactly as a node created for that single request would: the cached index never goes
+    stale (it is discarded by every request that moves rows) *)
+Theorem C17_hist_no_history_dependence : forall rows ops, hist_impl rows ops = hrun_fresh rows ops.
+Proof. exact hist_no_history_dependence. Qed.
+Print Assumptions C17_hist_no_history_dependence.
+
+Theorem C17_hist_cache_invariant : forall rows ops, cache_ok (hstate_after (mk_lstate rows None) ops).
+Proof. exact cache_ok_reachable. Qed.
+Print Assumptions C17_hist_cache_invariant.
+
+(** ... and so, after ANY history, a keyed request hands out position [pos] only if the row there
+    has key leaves denoting the requested key, finds a row whenever one has that key, and finds
+    nothing exactly when none has *)
+Theorem C17_hist_lookup_correct : forall sh rows0 ops k,
+  let s := hstate_after (mk_lstate rows0 None) ops in
+  let rows := ls_rows s in
+  Forall (kdom sh) (map fst rows) -> kdom sh k -> distinct_keys (map fst rows) ->
+  (forall pos, entries_find (ensure_idx s) k = Some pos ->
+     exists r t, nth_error rows pos = Some (r, t) /\ key_same r k) /\
+  (forall r t, In (r, t) rows -> key_same r k -> exists pos, entries_find (ensure_idx s) k = Some pos) /\
+  (entries_find (ensure_idx s) k = None <-> forall r t, In (r, t) rows -> ~ key_same r k).
+Proof. exact hist_lookup_correct. Qed.
+Print Assumptions C17_hist_lookup_correct.
+
+(** non-vacuity: delete the first row, then find a later one through the same node; the model trace
+    equals the declarative specification trace *)
+Example C17_hist_hyps_met :
+  let sh := [FInt32] in
+  let k n := [VInt FInt32 n] in
+  let rows := [(k 10, 1); (k 20, 2); (k 30, 3); (k 40, 4)] in
+  let ops := [HFind (k 30) 5; HDel (k 10); HFind (k 30) 6; HUpsert (k 40) 7; HUpsert (k 10) 8; HFind (k 10) 9] in
+  Forall (kdom sh) (map fst rows) /\ distinct_keys (map fst rows) /\ Forall (fun o => kdom sh (hop_key o)) ops /\
+  hist_impl rows ops = hist_spec rows ops /\
+  map snd (hist_impl rows ops) =
+    [ [(k 10, 1); (k 20, 2); (k 30, 5); (k 40, 4)];
+      [(k 20, 2); (k 30, 5); (k 40, 4)];
+      [(k 20, 2); (k 30, 6); (k 40, 4)];
+      [(k 20, 2); (k 30, 6); (k 40, 7)];
+      [(k 20, 2); (k 30, 6); (k 40, 7); (k 10, 8)];
+      [(k 20, 2); (k 30, 6); (k 40, 7); (k 10, 9)] ].
+Proof. exact hist_hyps_met. Qed.
